@@ -172,7 +172,14 @@ class Models(object):
                     m.distances = np.array([distance_range_kpc[0]]) * u.kpc
                 else:
                     n_distances = int(np.ceil(1 + (np.log10(distance_range_kpc[1]) - np.log10(distance_range_kpc[0])) / modpar['logd_step']))
-                    m.distances = np.logspace(np.log10(distance_range_kpc[0]), np.log10(distance_range_kpc[1]), n_distances) * u.kpc
+                    distances = np.logspace(np.log10(distance_range_kpc[0]), np.log10(distance_range_kpc[1]), n_distances)
+                    # 10 ** log10(d) does not always round back to d, so we
+                    # make sure the grid starts and ends exactly at the
+                    # requested distances (otherwise an aperture that is
+                    # exactly the smallest one available at the minimum
+                    # distance can end up just below it and be refused).
+                    distances[0], distances[-1] = distance_range_kpc[0], distance_range_kpc[1]
+                    m.distances = distances * u.kpc
                 print("   Number of distances :  %i" % m.n_distances)
             else:
                 raise Exception("For aperture-dependent models, a distange range is required")
@@ -256,7 +263,14 @@ class Models(object):
                     m.distances = np.array([distance_range_kpc[0]]) * u.kpc
                 else:
                     n_distances = int(np.ceil(1 + (np.log10(distance_range_kpc[1]) - np.log10(distance_range_kpc[0])) / modpar['logd_step']))
-                    m.distances = np.logspace(np.log10(distance_range_kpc[0]), np.log10(distance_range_kpc[1]), n_distances) * u.kpc
+                    distances = np.logspace(np.log10(distance_range_kpc[0]), np.log10(distance_range_kpc[1]), n_distances)
+                    # 10 ** log10(d) does not always round back to d, so we
+                    # make sure the grid starts and ends exactly at the
+                    # requested distances (otherwise an aperture that is
+                    # exactly the smallest one available at the minimum
+                    # distance can end up just below it and be refused).
+                    distances[0], distances[-1] = distance_range_kpc[0], distance_range_kpc[1]
+                    m.distances = distances * u.kpc
                 print("   Number of distances :  %i" % m.n_distances)
             else:
                 raise Exception("For aperture-dependent models, a distange range is required")
